@@ -40,6 +40,8 @@ let () = iter_lines (fun line ->
         | [ "T"; k ] -> [HTake (nat_of_int (int_of_string k))]
         | [ "F" ] -> [HFreeBuf]
         | [ "G"; k ] -> [HFreeHeld (nat_of_int (int_of_string k))]
+        | [ "V"; k ] -> [HSwitch (true, nat_of_int (int_of_string k))]
+        | [ "P"; k ] -> [HSwitch (false, nat_of_int (int_of_string k))]
         | "C" :: alloc :: seed :: cs ->
             kinds := `C :: !kinds;
             [HCall (alloc = "1", pops_of_c (int_of_string seed) (List.map int_of_string cs))]
@@ -59,6 +61,7 @@ let () = iter_lines (fun line ->
         | LBad (BadFreeForeign id) -> incr bad; Buffer.add_string b (Printf.sprintf "!ff%d " (int_of_z id))
         | LBad (BadFreeHanded id) -> incr bad; Buffer.add_string b (Printf.sprintf "!fh%d " (int_of_z id))
         | LBad (BadOverrun (id, off)) -> incr bad; Buffer.add_string b (Printf.sprintf "!ov%d@%d STOP" (int_of_z id) (int_of_z off)); stop := true
+        | LBad BadStalePair -> incr bad; Buffer.add_string b "!pair STOP"; stop := true
         | LBad (BadOverRead (id, n)) -> incr bad; Buffer.add_string b (Printf.sprintf "!or%d:%d STOP" (int_of_z id) (int_of_z n)); stop := true
         | LNote (NRecycled | NZeroReuse) -> incr hz
         | LNote _ -> incr cb
